@@ -274,7 +274,7 @@ template <typename F> static void op_orthom(const Case& c, Outcome& o) {
 // compared through the cosine (well conditioned): dot L u, |x||y| = 1 +- 4u, acos + final rounding 2u -> (L+6)u, x4
 template <typename F, int L> static bool angle_ok(const glm::vec<L, F>& x, const glm::vec<L, F>& y, F got) {
   TW; W d = 0; for (int k = 0; k < L; ++k) d += (W)x[k] * y[k]; W cr = d / std::sqrt(n2<F, L>(x) * n2<F, L>(y)); if (cr > 1) cr = 1; if (cr < -1) cr = -1;
-  const W pi = 3.14159265358979323846264338327950288L; W a = aW((W)got); return a <= pi * (1 + 2 * u) && aW(std::cos(a) - cr) <= 4 * (L + 6) * u;
+  const W pi = 3.14159265358979323846264338327950288L; W a = aW((W)got); return a <= pi * (1 + 2 * u) && LE(aW(std::cos(a) - cr), 4 * (L + 6) * u);
 }
 template <typename F, int L> static void op_angle(const Case& c, Outcome& o) {
   TW; auto x = ld<F, L>(c.w), y = ld<F, L>(c.w + L); if (!LE(aW(n2<F, L>(x) - 1), 4 * u) || !LE(aW(n2<F, L>(y) - 1), 4 * u)) { o.nontrivial = false; return; }
